@@ -168,13 +168,14 @@ def make_cp_class(version, routes):
     return cls
 
 
-def observe_frame(version, routes, raw, async_validation=False, settle=3, send_ok=True):
+def observe_frame(version, routes, raw, async_validation=False, settle=3, send_ok=True, cls=None):
     """Run one route_message(raw) on a fresh endpoint; return the ordered observation."""
     import ocpp.messages as M
 
     rec = Recorder()
     conn = Conn(rec, fail_sends=None if send_ok else {0})
-    cls = make_cp_class(version, routes)
+    if cls is None:
+        cls = make_cp_class(version, routes)
     old = M.ASYNC_VALIDATION
     M.ASYNC_VALIDATION = async_validation
 
